@@ -904,6 +904,8 @@ class Interp(object):
         if isinstance(base, Obj):
             if attr in base.fields:
                 return base.fields[attr]
+            if attr == '__dict__':
+                return base.fields
             if attr == '__class__':
                 return ClassRef(base.cls)
             if self.repo.has_cls(base.cls):
@@ -2158,6 +2160,8 @@ class Interp(object):
                 if t == want:
                     return want
             return not want
+        if name == 'vars' and len(args) == 1 and isinstance(a0, Obj):
+            return a0.fields          # the instance dictionary itself: changes made through it are changes of the object
         if name in ('map', 'filter') and len(args) == 2 and isinstance(a0, FuncRef) and isinstance(args[1], (list, tuple)):
             out = []
             for x in args[1]:
@@ -2190,7 +2194,7 @@ class Interp(object):
             except Exception:
                 return Top('bytes')
         if name in ('bin', 'hex', 'chr', 'ord', 'any', 'all', 'open', 'compile', 'eval', 'exec', 'id', 'hash', 'format',
-                    'divmod', 'pow', 'map', 'filter', 'callable', 'vars', 'dir', 'bytes', 'bytearray', 'object'):
+                    'divmod', 'pow', 'map', 'filter', 'callable', 'dir', 'bytes', 'bytearray', 'object'):
             if isinstance(a0, Sym):
                 return Sym(name, *args)
             return Top(name)
